@@ -21,7 +21,7 @@ def run_pl(chk, prop):
     r = vplib.tlc("ProofList", "ProofList.nonvacuous.cfg", timeout=900, allow_fail=True)
     if "SomeAccept" not in r.invariant_violated:
         raise vplib.Machinery("vacuity check failed: acceptance not reachable in the model")
-    sels = [1, 2, 3] if thorough else ([1, 2] if prop == "C03" else [1, 3])
+    sels = [1, 2, 3, 4] if thorough else ([1, 2, 4] if prop == "C03" else [1, 3])
     cases = []
     for s in sels:
         g = vplib.tlc("ProofListGen", "ProofList.gen.%d.cfg" % s, workers=1, timeout=1500)
@@ -34,13 +34,22 @@ def run_pl(chk, prop):
         chk.add_tlc(g, "ProofListGen", "ProofList.gen3.cfg", "%d attempts of length <= 3 (seeded simulation)" % len(c))
         cases += c
     cases = sorted(set(cases))
+    # every attempt whose list and keys are an honest session's (any header, labelling) is replayed; of the rest a seeded sample
+    import random
+    focus = [c for c in cases if '"focus":true' in c]
+    rest = [c for c in cases if '"focus":true' not in c]
+    random.Random(chk.seed).shuffle(rest)
+    cap = 400000 if thorough else 90000
+    chk.extra["attempts_generated"] = len(cases)
+    chk.extra["attempts_focus"] = len(focus)
+    cases = focus + rest[:max(0, cap - len(focus))]
     if len(cases) < 5000:
         raise vplib.Machinery("generator produced only %d attempts" % len(cases))
     cp = os.path.join(vplib.sub("pl"), "cases.ndjson")
     open(cp, "w").write("\n".join(cases) + "\n")
     res = vplib.vh("pl", ["replay", "--in", cp, "--tier", T, "--seed", str(chk.seed)], timeout=3300)
     chk.add_replay(res, "attempt_replay")
-    chk.exhaustive = not thorough
+    chk.exhaustive = False
 
 def run(chk):
     run_pl(chk, "C02")
